@@ -17,7 +17,7 @@ def l2Digest (s : St) : String :=
   let us := (List.range 3).map (fun u => let x := s.users u; s!"{u}:{x.long}:{x.short}:{x.mt}")
   -- same order as the harness' BTreeMap<(u8, char, u8)>: kinds sorted by character d < s < t < w
   let ds := (List.range 3).flatMap (fun u => [0, 2, 3, 1].flatMap (fun k => (List.range 3).filterMap (fun i =>
-    (s.acts u k i).map (fun (x : Act) => s!"{u}.{l2KindName k}.{i}:{x.state}:{x.escLong}:{x.escShort}:{x.escMt}"))))
+    (s.acts u k i).map (fun (x : Act) => s!"{u}.{l2KindName k}.{i}:{x.state}:{x.escLong}:{x.escShort}:{x.escMt}:r{x.receiver}"))))
   s!"now={s.now} users=[{",".intercalate us}] acts=[{",".intercalate ds}] vault={s.vaultLong}:{s.vaultShort} rec={s.recLong}:{s.recShort} supply={supply s}"
 
 def l2Who (t : String) : Option Gmx.Life.Who :=
@@ -49,11 +49,11 @@ def l2Engine (ss : L2State) (args : List String) : L2State × String :=
     | _, _ => (ss, "bad-op")
   | ["create", sid, u, k, i, a, b, fe] =>
     match l2Lookup ss sid, l2Id s!"{u}.{k}.{i}", allNat [a, b], fe.splitOn ":" with
-    | some s, some (u, k, i), some [a, b], [f, el] =>
-      match pBool f, pNat el with
-      | some f, some el =>
-        if el ≤ 50000000 && a < 2 ^ 64 && b < 2 ^ 64 && (k = 0 || b = 0) then l2Reply ss sid s (create s u k i a b f el) else (ss, "bad-op")
-      | _, _ => (ss, "bad-op")
+    | some s, some (u, k, i), some [a, b], [f, el, rc] =>
+      match pBool f, pNat el, pNat rc with
+      | some f, some el, some rc =>
+        if el ≤ 50000000 && a < 2 ^ 64 && b < 2 ^ 64 && (k = 0 || b = 0) && rc < 3 then l2Reply ss sid s (create s u k i a b f el rc) else (ss, "bad-op")
+      | _, _, _ => (ss, "bad-op")
     | _, _, _, _ => (ss, "bad-op")
   | ["exec", sid, who, id, fee, throw, fl, x, y] =>
     match l2Lookup ss sid, l2Who who, l2Id id, allNat [fee, x, y], pBool throw, pBool fl with
